@@ -341,6 +341,28 @@ def flipLeg (a : ArrS) (k : Nat) : Option ArrS :=
   | some (.plain l) => some { a with legs := setLeg a.legs k (.plain l.flipChargesQconj) }
   | some (.pipe p) => some { a with legs := setLeg a.legs k (.pipe p.outerConj) }
 
+/-! ### `apply_charge_mapping` / `shift_charges` -/
+
+/-- `charges ↦ make_valid(k * charges)` (a homomorphism, used as `map_func` of `apply_charge_mapping`) -/
+def scaleMap (mods : List Nat) (k : Int) (c : Charge) : Charge := makeValid mods (cscale k c)
+
+/-- `DipolarChargeInfo.shift_charges(_horizontal)`: `c[d] += dx * c[q]` for every (charge, dipole) index pair -/
+def shiftMap (mods : List Nat) (pairs : List (Nat × Nat)) (dx : Int) (c : Charge) : Charge :=
+  makeValid mods (pairs.foldl (fun (acc : Charge) p => acc.set p.2 (acc.getD p.2 0 + dx * acc.getD p.1 0)) c)
+
+/-- `LegCharge.apply_charge_mapping`: both flags are reset -/
+def mapLegCharges (f : Charge → Charge) (l : Leg) : Leg :=
+  { l with charges := l.charges.map f, sorted := false, bunched := false }
+
+/-- `LegPipe.apply_charge_mapping`: the pipe and its incoming legs are mapped, `q_map` is kept -/
+def mapLegSCharges (f : Charge → Charge) : LegS → LegS
+  | .plain l => .plain (mapLegCharges f l)
+  | .pipe p => .pipe { p with leg := mapLegCharges f p.leg, legs := p.legs.map (mapLegCharges f) }
+
+/-- `Array.apply_charge_mapping(map_func)`: a shallow copy (or self) with mapped legs and `qtotal`; rows and flag stay -/
+def applyChargeMapping (a : ArrS) (f : Charge → Charge) : ArrS :=
+  { a with legs := a.legs.map (mapLegSCharges f), qtotal := f a.qtotal }
+
 /-- `gauge_total_charge(axis, newqtotal, new_qconj)` -/
 def gaugeTotalCharge (a : ArrS) (axis : Int) (newq : Option Charge) (newQconj : Option Int) : Option ArrS :=
   match a.legIndex axis with
@@ -549,6 +571,18 @@ def combineWithPipes (a : ArrS) (groups : List (List Nat)) (newAxes : Option (Li
       let a' := a.permuteAxes transp
       let inv := inversePerm transp
       combineStd a' (groups'.map (fun g => g.map (fun k => inv.getD k 0))) na' pipes'
+
+/-- `combine_legs(groups, new_axes, pipes=given)`: `_combine_legs_make_pipes` for provided pipes — the pipe is
+conjugated when its first incoming leg points the other way; the incoming legs must then be `test_equal` -/
+def combineGivenPipes (a : ArrS) (groups : List (List Nat)) (newAxes : Option (List Int)) (pipes : List Pipe) :
+    Option ArrS :=
+  if pipes.length ≠ groups.length || groups.flatten.any (· ≥ a.rank) then none else
+  let fixed := (groups.zip pipes).map (fun gp =>
+    let legs := gp.1.map (fun k => a.legAt k)
+    let p := if (legs.headD nilLeg).qconj ≠ (gp.2.legs.headD nilLeg).qconj then gp.2.conj else gp.2
+    (p, decide (p.legs.length = legs.length) && (legs.zip p.legs).all (fun ll => ll.1.testEqual ll.2)))
+  if fixed.any (fun x => !x.2) then none
+  else combineWithPipes a groups newAxes (fixed.map (·.1))
 
 /-- pipes as made by `make_pipe(axes, qconj=…)` (sort and bunch on) -/
 def makePipes (a : ArrS) (groups : List (List Nat)) (qconjs : List (Option Int)) : List Pipe :=
